@@ -271,6 +271,7 @@ func (c *ctx) skeletons() {
 		gos = append(gos, fmt.Sprintf("%s:%d %s waits-afterwards=%v", g.File, g.Line, g.Fn, g.Joined))
 	}
 	r.Extra["goroutines_started_in_scope"] = gos
+	r.Extra["may_return_nil_with_nil_error"] = c.an.MayNil
 	r.Extra["generated_files_skipped"] = c.an.Generated
 	r.Extra["files_left_to_other_properties"] = c.an.Skipped
 }
